@@ -607,8 +607,8 @@ macro_rules! conc_prop {
             }
             fn budget(&self, tier: Tier) -> (u32, usize) {
                 match tier {
-                    Tier::Quick => (60_000, 8),
-                    Tier::Thorough => (1_500_000, 16),
+                    Tier::Quick => (150_000, 8),
+                    Tier::Thorough => (4_000_000, 16),
                 }
             }
             fn run(&self, case: &CbcCase) -> Report {
